@@ -3,9 +3,11 @@
 
 mod c02;
 mod c03;
+mod c04;
 mod c13;
 mod common;
 mod fmt06;
+mod hist;
 mod hook;
 mod report;
 mod run;
@@ -45,6 +47,14 @@ fn main() {
         let case = &v["case"];
         let viols = match case["kind"].as_str().unwrap_or("") {
             "crash" => c03::replay(case),
+            "fault" => c04::replay(case),
+            "hist" => match case["rider"].as_str().unwrap_or("") {
+                "C02" => c02::replay(case),
+                r => {
+                    eprintln!("unknown history rider {r:?}");
+                    std::process::exit(2);
+                }
+            },
             other => {
                 eprintln!("unknown replay kind {other:?} for {id}");
                 std::process::exit(2);
@@ -64,7 +74,9 @@ fn main() {
     let report = Report::new(id, tier, level_of(id));
     let budget = budget_for(tier);
     match id {
+        "C02" => c02::run(&report, &budget),
         "C03" => c03::run(&report, &budget),
+        "C04" => c04::run(&report, &budget),
         _ => {
             eprintln!("unknown property {id}");
             std::process::exit(2);
